@@ -405,6 +405,17 @@ impl Blocker {
             .collect()
     }
 
+    // R7: the tag test of tags_with_set - the body of the closure passed to `.filter(..)` - for every rule that may sit in
+    // tagged_filters_all, also one decoded from a buffer without its tag ("corrupt data never panics": the unwrap is guarded)
+    fn vf_tag_test(&self, n: &NetworkFilter) -> (b: bool)
+        ensures b == (n.tag is Some && self.tags_enabled@.contains(n.tag->Some_0)), // OBL C07.tags_with_set.tag_test
+    {
+//@EXTRACT src/blocker.rs :: impl Blocker :: fn tags_with_set
+//@ SAFETY C10.wf.tag_test.safety
+//@ CLOSUREBODY .filter
+//@END
+    }
+
 //@EXTRACT src/blocker.rs :: impl Blocker :: fn tags_with_set
 //@ SAFETY C07.tags_with_set.safety
 //@ SPEC
